@@ -124,15 +124,6 @@ def opType (s : String) : Nat :=
   match s with
   | "text" => 1 | "binary" => 2 | "close" => 8 | "ping" => 9 | "pong" => 10 | _ => s.toNat!
 
-/-- feed segments to a receiver until an error -/
-def feedSegs (g : Cfg) (e : Env) : S → List Bytes → List Act → S × List Act × Option Err
-  | s, [], acts => (s, acts, none)
-  | s, seg :: segs, acts =>
-    let r := parse g e s seg
-    match r.err with
-    | some er => (r.s, acts ++ r.acts, some er)
-    | none => feedSegs g e r.s segs (acts ++ r.acts)
-
 def cutUp : List UInt8 → List Nat → List (List UInt8)
   | _, [] => []
   | b, k :: ks => b.take k :: cutUp (b.drop k) ks
@@ -283,7 +274,9 @@ partial def loop (h : IO.FS.Stream) (d : DS) : IO Unit := do
       | .ok wr => (0, wr.foldr (· ++ ·) [])
       | .error e => (e.code, [])
     let cuts := (splitNE (f "cuts") ",").map String.toNat!
-    let (sr1, racts, rerr) := feedSegs gr (mkEnv ws "bkeys" sr.k.nwrites) sr (cutUp wire cuts) []
+    -- `Ws.feed`: the function the segmentation theorems are about
+    let fr := feed gr (mkEnv ws "bkeys" sr.k.nwrites) sr (cutUp wire cuts) []
+    let (sr1, racts, rerr) := (fr.s, fr.acts, fr.err)
     let back := writesOf racts
     let pb := if back.isEmpty then (⟨ss1, [], none⟩ : PR) else parse gs (mkEnv ws "rkeys" ss1.k.nwrites) ss1 back
     -- the codec law on the observed tables: readAll (inflate (deflate x)) = x
